@@ -456,7 +456,8 @@ func runMerge(c *hc.Ctx) {
 		line := fmt.Sprintf("MRG %d %d %s", op, rule, strings.Join(toks, " "))
 		var out [][6]int
 		var prev int
-		if msg := hc.Try(func() { out, prev = canvas.VerifMergeColumn(ents, op, canvas.FillRule(rule)) }); msg != "" {
+		var opens []bool
+		if msg := hc.Try(func() { out, prev, opens = canvas.VerifMergeColumnFlags(ents, op, canvas.FillRule(rule)) }); msg != "" {
 			c.Fail("merge:panic", msg, map[string]any{"line": line})
 			continue
 		}
@@ -468,7 +469,28 @@ func runMerge(c *hc.Ctx) {
 				absorbed++
 			}
 		}
-		c.Case(line, "=", strings.Join(outs, " ")+fmt.Sprintf(" %d", prev))
+		var os []string
+		for _, o := range opens {
+			os = append(os, hc.B(o))
+		}
+		c.Case(line, "=", strings.Join(outs, " ")+fmt.Sprintf(" %d ", prev)+strings.Join(os, " "))
+		// independent oracle (51f64dd): the run the receiver absorbs is read off the INPUT (leading
+		// entries below it with its geometry that were not handled yet); afterwards the receiver is
+		// open iff it was open and every absorbed segment is open; nobody else's flag changes
+		wantOpen := ents[0].Open
+		if !ents[0].Overlapped {
+			for i := 1; i < n && !ents[i].Overlapped && ents[i].Geom == ents[0].Geom; i++ {
+				wantOpen = wantOpen && ents[i].Open
+			}
+		}
+		if opens[0] != wantOpen {
+			c.Fail("merge:open-on-closed", fmt.Sprintf("receiver open=%v after mergeOverlapping, expected %v (open only if it was open and every absorbed segment is open)", opens[0], wantOpen), map[string]any{"line": line})
+		}
+		for i := 1; i < n; i++ {
+			if opens[i] != ents[i].Open {
+				c.Fail("merge:open-flag-of-other-segment-changed", fmt.Sprintf("entry %d", i), map[string]any{"line": line})
+			}
+		}
 		c.Distinct(line)
 		c.Count(fmt.Sprintf("merge:absorbed:%d", absorbed))
 		c.Evals++
